@@ -281,6 +281,8 @@ type vc35World struct {
 
 	latCount atomic.Int64
 	barMu    sync.Mutex
+	dbgMu    sync.Mutex
+	dbgLog   []string
 
 	intent  []uint64 // per CID index, written only by the owner's goroutine
 	tainted []bool
@@ -329,6 +331,7 @@ type vc35Sender struct{ w *vc35World }
 func (s *vc35Sender) SendMsg(_ context.Context, m bsmsg.BitSwapMessage) error {
 	w := s.w
 	vc35Perturb(w.loopR, w.sendDelay)
+	w.dbg("SendMsg")
 	entries := m.Wantlist() // copies the entries: the queue re-uses the message object
 	full := m.Full()
 	w.mu.Lock()
@@ -345,6 +348,7 @@ func (s *vc35Sender) Reset() error {
 
 func (s *vc35Sender) SupportsHave() bool {
 	w := s.w
+	w.dbg("SupportsHave")
 	w.senderInit.Store(true)
 	w.mu.Lock()
 	if w.busyOpen == 0 {
@@ -419,6 +423,7 @@ func (m *vc35TapMsg) Remove(k cid.Cid) { // called with mq.wllock held: no pause
 
 func (m *vc35TapMsg) Reset(full bool) {
 	w := m.w
+	w.dbg("msg.Reset")
 	w.mu.Lock()
 	for k, n := range m.removed {
 		w.removes += int64(n)
@@ -506,6 +511,7 @@ func vc35Case(k *vlib.Case, st vc35Stratum) {
 		for {
 			select {
 			case e := <-events:
+				w.dbg("event %d", e)
 				if e == latenciesRecorded {
 					w.latCount.Add(1)
 				}
@@ -656,6 +662,21 @@ func (w *vc35World) produce(ph, p int, ops []vc35Op) {
 	}
 }
 
+func (w *vc35World) dbg(f string, a ...any) {
+	w.dbgMu.Lock()
+	w.dbgLog = append(w.dbgLog, fmt.Sprintf("%d:", w.seq.Load())+fmt.Sprintf(f, a...))
+	if len(w.dbgLog) > 60 {
+		w.dbgLog = w.dbgLog[1:]
+	}
+	w.dbgMu.Unlock()
+}
+
+func (w *vc35World) dbgDump() string {
+	w.dbgMu.Lock()
+	defer w.dbgMu.Unlock()
+	return strings.Join(w.dbgLog, " ; ")
+}
+
 // barrier returns after the run loop has completed everything it had dequeued
 // before the call: a response for a CID outside the pool is queued and its
 // latenciesRecorded event awaited (the run loop is sequential).
@@ -663,6 +684,8 @@ func (w *vc35World) barrier() {
 	w.barMu.Lock()
 	defer w.barMu.Unlock()
 	before := w.latCount.Load()
+	w.dbg("barrier start lat=%d", before)
+	defer w.dbg("barrier end")
 	w.mq.ResponseReceived([]cid.Cid{w.dum})
 	for w.latCount.Load() == before {
 		time.Sleep(100 * time.Microsecond)
@@ -693,17 +716,17 @@ func (w *vc35World) quiesce() bool {
 		for w.mq.pendingWorkCount() != 0 {
 			w.barrier()
 			o1 := look()
-			st1 := vc35RunLoopStack()
+			w.dbg("o1 %+v", o1)
 			w.barrier()
 			o2 := look()
-			st2 := vc35RunLoopStack()
+			w.dbg("o2 %+v", o2)
 			if o1 == o2 && o1.pending != 0 && o1.signal == 0 {
 				w.mq.wllock.Lock()
 				d := fmt.Sprintf("pending peer wants=%d, pending broadcast wants=%d, queued cancels=%d; messages sent so far=%d; outgoingWork signal queued=%v",
 					w.mq.peerWants.pending.Len(), w.mq.bcstWants.pending.Len(), w.mq.cancels.Len(), o1.msgs, o1.signal != 0)
 				w.mq.wllock.Unlock()
 				class := "stalled-pending-work"
-				d += fmt.Sprintf("; DEBUG o1=%+v stack1=%s o2=%+v stack2=%s", o1, st1, o2, st2)
+				d += "; DEBUG " + w.dbgDump()
 				d += "; run loop goroutine: " + vc35RunLoopStack()
 				w.mu.Lock()
 				d += fmt.Sprintf("; logical time now=%d; last constructions: %s", w.seq.Load(), strings.Join(w.builds, " | "))
